@@ -257,3 +257,23 @@ func serExpr(e grammar.Expression) string {
 	}
 	return "other"
 }
+
+// sortedMapKeys lists the keys of a map in a canonical order (by their wire form), so that nothing
+// a generator derives from a map depends on Go's randomised iteration order: every case stream is a
+// function of the seed alone.
+func sortedMapKeys(v reflect.Value) []reflect.Value {
+	ks := v.MapKeys()
+	type kk struct {
+		s string
+		k reflect.Value
+	}
+	tmp := make([]kk, len(ks))
+	for i, k := range ks {
+		tmp[i] = kk{serVal(k), k}
+	}
+	sort.SliceStable(tmp, func(i, j int) bool { return tmp[i].s < tmp[j].s })
+	for i := range tmp {
+		ks[i] = tmp[i].k
+	}
+	return ks
+}
